@@ -40,6 +40,7 @@ type Opts struct {
 	NoSuicide bool
 	MaxSnips  int
 	Journal   bool // allow journal opcodes (never for reference comparison)
+	SmallMem  bool // keep memory offsets small (cases carry memory snapshots)
 }
 
 type gen struct {
@@ -69,6 +70,9 @@ func (g *gen) smallWord() *big.Int {
 func (g *gen) memOff() uint64 {
 	switch g.r.Intn(12) {
 	case 0:
+		if g.o.SmallMem {
+			return uint64(g.r.Intn(300))
+		}
 		return uint64(g.r.Intn(4096))
 	case 1:
 		return 0
